@@ -337,6 +337,25 @@ func cdistRecord(out io.Writer, args []string) error {
 			e.Mu, e.Sigma, e.X, e.Z = mkfdy(mu), mkfdy(sigma), mkfdy(nd.Rand(r1)), mkfdy(r2.NormFloat64())
 			enc.Encode(e)
 		}
+		// a nil source means the package-level generator: the draws cannot be replayed, but they must still be Mu + Sigma * N(0,1)
+		{
+			const N = 2000
+			s, worstDev := 0.0, 0.0
+			viaRand := stats.Rand(nd)
+			for k := 0; k < N; k++ {
+				var x float64
+				if k%2 == 0 {
+					x = nd.Rand(nil)
+				} else {
+					x = viaRand(nil)
+				}
+				s += (x - mu) / sigma
+				worstDev = math.Max(worstDev, math.Abs(x-mu)/sigma)
+			}
+			e := mk("RandNil")
+			e.Mu, e.Sigma, e.Mean, e.Hi = mkfdy(mu), mkfdy(sigma), mkfdy(s/N), mkfdy(worstDev)
+			enc.Encode(e)
+		}
 		// DeltaDist
 		t := math.Round(mu*8) / 8
 		dl := stats.DeltaDist{T: t}
